@@ -85,10 +85,16 @@ pub fn drive_from_commandline(
 	}
 	else
 	{
+		// The command line could not be parsed as a whole,
+		// but a request to leave out the colors is still honored
+		let use_colors = !args
+			.iter()
+			.any(|arg| arg == "--color=off");
+
 		report.print_all(
 			&mut std::io::stderr(),
 			fileserver,
-			true);
+			use_colors);
 
 		Err(())
 	}
